@@ -782,12 +782,14 @@ class Rechunk(ArrayExpr):
         # Only match Rechunk, not TasksRechunk (which is already lowered)
         # Don't merge if inner has method='p2p' - preserve explicit p2p semantics
         if type(self.array) is Rechunk and self.array.method != "p2p":
+            # self.chunks is the settled target (this node's own balance already
+            # applied); the inner rechunk's balance must not leak onto it
             return Rechunk(
                 self.array.array,
-                self._chunks,
+                self.chunks,
                 self.threshold,
                 self.block_size_limit,
-                self.balance or self.array.balance,
+                False,
                 self.method,
             )
 
